@@ -942,6 +942,7 @@ func (p *Parser) parseFuncParams(in string) (params Params) {
 			p.next()
 			params.Rest = p.parseBinding(ArgumentDecl)
 			p.consume(in, CloseParenToken)
+			p.scope.MarkFuncArgs()
 			return
 		}
 		params.List = append(params.List, p.parseBindingElement(ArgumentDecl))
